@@ -7,6 +7,7 @@ PID = 'C12'
 TARGETS = ['Properties/C12.vo', 'Bridge/ErrorsBridge.vo', 'Bridge/CodegenBridge.vo', 'Bridge/PlumbingBridge.vo', 'Bridge/DataBridge.vo']
 KERNELS = ['G8_data', 'G9_errors', 'G11_codegen', 'G17_builder']
 PROP_FILE = 'Properties/C12.v'
+WHOLE_PACKET = True      # Tie A over all of the pack / unpack machinery (check.py: WHOLE_PACKET_KERNELS)
 
 
 def corrupt(table, v, rng):
